@@ -11,25 +11,30 @@ import (
 )
 
 // reaches reports whether container `to` is reachable from `from` (both inclusive).
-func reaches(from, to any) (res bool) {
+func reaches(from, to any) bool { return reachesIn(from, to, 0) }
+
+// reachesIn: the walk is bounded — on a heap that has (through a defect of the library) become cyclic, or deeper than any
+// program here builds, the answer is "reachable", i.e. never nest it; an unbounded walk would end the harness with a stack
+// overflow, which cannot be recovered.
+func reachesIn(from, to any, depth int) (res bool) {
 	defer func() {
 		if r := recover(); r != nil {
 			res = true // a container that cannot even be walked: treat as reachable, i.e. never nest it
 		}
 	}()
-	if from == to {
+	if from == to || depth > 4000 {
 		return true
 	}
 	switch x := from.(type) {
 	case at.List:
 		for _, e := range x.Slice() {
-			if reaches(e, to) {
+			if reachesIn(e, to, depth+1) {
 				return true
 			}
 		}
 	case at.Object:
 		for _, e := range x.Dict() {
-			if reaches(e, to) {
+			if reachesIn(e, to, depth+1) {
 				return true
 			}
 		}
